@@ -330,6 +330,28 @@ def run(rep):
             else:
                 okp = okp and (got == ('nan',) or (got is None and _nan_before(pre, iv)))
     rep.check(okp and seen >= 2, "R14.b", file, "c_var2h", "stored value = integral / period length, NaN when an overlapping interval was invalid", "", line=outer.get("_line"))
+    # the interval that straddles the end of a period belongs to the next period as well: once the walk is over the cursor steps back one
+    # observation whenever it is past the first, on every path (a further condition on the step makes the next period start too late)
+    def back_oracle(c):
+        for nm in ("varindex", "VI0"):
+            if cq.same_cond(c, f"{nm} > 0", True) or cq.same_cond(c, f"{nm} >= 1", True) or cq.same_cond(c, f"{nm} != 0", True):
+                return True
+            if cq.same_cond(c, f"{nm} <= 0", True) or cq.same_cond(c, f"{nm} == 0", True) or cq.same_cond(c, f"{nm} < 1", True):
+                return False
+        if cq.same_cond(c, f"{MISS} == 0", True):
+            return True
+        return None
+    try:
+        bce = CEval(back_oracle)
+        bce.summarise_loops = True
+        bce.run(post, {"varindex": ('sym', 'VI0')})
+        bends = [f_ for f_ in bce.finals if f_[2] == "end"]
+        stay = [f_ for f_ in bends if not cq.same_expr(f_[0].get("varindex", ('sym', 'VI0')), "VI0 - 1")]
+        rep.check(bool(bends) and not stay, "R14.b", file, "c_var2h", "after the walk the cursor steps back one observation whenever it is past the first, unconditionally",
+                  (f"{len(stay)} of {len(bends)} path(s) leave the cursor where it is" + (", under " + show(stay[0][1][0][0])[:80] if stay and stay[0][1] else "")) if stay else "",
+                  line=outer.get("_line"))
+    except Undecided as ex:
+        rep.undecided("R14.b", file, "c_var2h", "after the walk the cursor steps back one observation whenever it is past the first", str(ex), line=outer.get("_line"))
 
     # ---------------- wrapper ---------------------------------------------------------------------------------------------------------
     P = pyxread.load_all(rep.repo)
